@@ -579,6 +579,15 @@ func singleStore(a *ssa.Alloc) ssa.Value {
 		case *ssa.Slice:
 			// slicing an array alloc: the slice may be written through; accept only
 			// when the alloc is a spilled parameter (its single store is a Parameter)
+		case *ssa.MakeClosure:
+			// captured by a closure: fine if the closure (transitively) only reads it
+			for i, b := range s.Bindings {
+				if b == ssa.Value(a) {
+					if fn, ok := s.Fn.(*ssa.Function); !ok || i >= len(fn.FreeVars) || !onlyLoaded(fn.FreeVars[i]) {
+						return nil
+					}
+				}
+			}
 		default:
 			return nil
 		}
@@ -611,6 +620,14 @@ func onlyLoaded(addr ssa.Value) bool {
 		case *ssa.IndexAddr:
 			if !onlyLoaded(x) {
 				return false
+			}
+		case *ssa.MakeClosure:
+			for i, b := range x.Bindings {
+				if b == addr {
+					if fn, ok := x.Fn.(*ssa.Function); !ok || i >= len(fn.FreeVars) || !onlyLoaded(fn.FreeVars[i]) {
+						return false
+					}
+				}
 			}
 		default:
 			return false
@@ -1161,3 +1178,49 @@ func DescribeVal(v ssa.Value) string {
 	}
 	return strings.TrimSuffix(d, "[:]")
 }
+
+// SelectCase is one communication clause of a select statement.
+type SelectCase struct {
+	Index int
+	Chan  ssa.Value
+	Send  bool
+	Body  *ssa.BasicBlock // first block executed when this case is chosen (nil if not found)
+}
+
+// SelectCases maps the states of a select to their body blocks through the
+// index == k test chain that go/ssa emits. Default is reported with Index -1
+// for non-blocking selects (Body = the block taken when no test matches).
+func SelectCases(sel *ssa.Select) []SelectCase {
+	out := make([]SelectCase, len(sel.States))
+	for i, st := range sel.States {
+		out[i] = SelectCase{Index: i, Chan: st.Chan, Send: st.Dir == types.SendOnly}
+	}
+	var idx *ssa.Extract
+	for _, r := range *sel.Referrers() {
+		if e, ok := r.(*ssa.Extract); ok && e.Index == 0 {
+			idx = e
+		}
+	}
+	if idx == nil {
+		return out
+	}
+	for _, r := range *idx.Referrers() {
+		b, ok := r.(*ssa.BinOp)
+		if !ok || b.Op != token.EQL {
+			continue
+		}
+		k, isK := ConstInt(b.Y)
+		if !isK || b.Referrers() == nil {
+			continue
+		}
+		for _, rr := range *b.Referrers() {
+			if iff, ok := rr.(*ssa.If); ok && k >= 0 && int(k) < len(out) {
+				out[k].Body = iff.Block().Succs[0]
+			}
+		}
+	}
+	return out
+}
+
+// FieldNameOf names the field a FieldAddr selects.
+func FieldNameOf(fa *ssa.FieldAddr) string { return fieldName(fa.X.Type(), fa.Field) }
